@@ -191,7 +191,7 @@ impl StateCheck for C06 {
     }
 }
 
-fn aux_alphabet() -> Vec<Letter> {
+pub fn aux_alphabet() -> Vec<Letter> {
     let mut al = vec![];
     // system 1: granular lines
     for v in [k(&[4, 0]), k(&[2, 2]), k(&[0, 6])] {
